@@ -591,6 +591,21 @@ def c05(pid, tier, seed):
             fails.append(dict(cls="%s/%s" % (v["rule"], name.split("_")[0]), rule=v["rule"], n=v["i"], kf=kf.classify_c05(h, v),
                               what="rule=%s family=%s step=%d" % (v["rule"], name, v["i"]),
                               replay={"driver": "api", "monitor": "Trace_Throttle", "rule": v["rule"], "history": {"h": 1, "cfg": h["cfg"], "ops": h["ops"][:v["i"]]}}))
+    # ticker clause: the steady-tick thread's redraw requests are ordinary requests. Under the controlled scheduler the ticker thread ticks a
+    # hundred times and more while the virtual clock stands still: a 20 Hz target may paint its burst of 20 and one frame, not more
+    flood = [{"setup": {"multi": multi, "bars": 1, "ticker": [1], "hz": 20, "frozen_clock": True}, "threads": [[{"op": "tick", "b": 1}]],
+              "schedule": [0] * k + [100] * n, "limcheck": 21, "spincheck": False, "program": "ticker_flood_%s_%d_%d" % ("multi" if multi else "single", k, n)}
+             for multi in (False, True) for n in (400, 1200) for k in (2, 3, 4, 5)]     # k: how far the caller gets before the ticker runs
+    badf, stf, totalf = vlib.replay_and_judge("%s_ticker_flood" % pid, flood, "sync", "Trace_Sync", shards=2)
+    nh += len(flood)
+    nrec += totalf
+    fams.append({"family": "ticker_flood", "histories": len(flood), "records": totalf, "verdicts": len(badf), "ticker_ticks": stf.get("ticks", 0)})
+    if stf.get("ticks", 0) < 100:
+        raise vlib.ToolError("vacuous ticker clause: %s" % stf)
+    byf = {r["h"]: r for r in flood}
+    for v in badf:
+        fails.append(dict(cls="%s/ticker" % v["rule"], rule=v["rule"], n=1, kf=[], what="rule=%s family=ticker_flood program=%s" % (v["rule"], byf[v["h"]]["program"]),
+                          replay={"driver": "sync", "monitor": "Trace_Sync", "rule": v["rule"], "history": byf[v["h"]]}))
     if stats.get("painted", 0) == 0 or stats.get("denied", 0) == 0 or stats.get("fresh", 0) == 0:
         raise vlib.ToolError("vacuous run: painted/denied/fresh clauses not all exercised: %s" % stats)
     # "skipped draws lose nothing: the next painted frame shows the latest position, length and texts" for several bars behind one
